@@ -291,6 +291,10 @@ fn index_width_cases(coin: &'static Coin, only: Option<usize>) -> Vec<(String, C
             TxOut { value: 1, script: b.clone() },
             TxOut { value: u32::MAX as u64, script: b.clone() },
             TxOut { value: 2, script: b.clone() },
+            // single amounts in the upper half of the 8-byte field (an amount kept in a signed integer turns negative)
+            TxOut { value: 1u64 << 63, script: script::p2pkh(&script::h20(80)) },
+            TxOut { value: (1u64 << 63) + 1, script: script::p2pkh(&script::h20(81)) },
+            TxOut { value: u64::MAX, script: script::p2pkh(&script::h20(82)) },
         ];
         cb.push(vec![Tx { version: 1, segwit: false, inputs: vec![TxIn::spend([0xee; 32], 0)], outputs: outs, locktime: 0, wide: 0 }]);
         let many: Vec<TxOut> = (0..3000usize).map(|i| TxOut { value: 3_000_000_000 + i as u64, script: script::p2pkh(&script::h20(79)) }).collect();
